@@ -79,6 +79,11 @@ CHECKS = {
    text="unauth_no_token, host_policy (per mode), claims_exact, splitAt_no_sep, file_host_is_token_host, issue_then_accept_partial (issued host+token pass Cookie.check, checkSession and checkHost from the same address within 360 s, provided the chosen entry has no placeholder or the IdP subject equals the session user name), issue_then_accept_counterexample (known finding D22) in Props/C12.lean. Tie: the real handlers on generated modes × lists × host parameters (incl. valid/expired/forged/wrong-issuer query tokens) × users × templates × addresses × session states; file lines and token claims decoded independently; issued (host, token) presented to the real CheckPAACookie → CheckSession(CheckHost).",
    design="6/C12",
    note="Round-robin's random pick is not reproduced: membership in the configured list is checked. fmt.Sprintf(template) with formatting verbs is not modelled. Known finding D22 (placeholder entries vs IdP subject) is listed in KNOWN_FINDINGS.txt."),
+ "C09": dict(
+   technique="Lean 4 lockset-soundness theorem (induction over executions of any number of tunnels) + decision of the lock discipline on the access table regenerated from the Go source by the extractor; race-detector stress of the real handlers to exhibit failures",
+   text="lockset_sound (if tableOK then no reachable configuration of any number of tunnels has two goroutines inside conflicting accesses to one resource instance), table_ok (decided on Generated/Access.lean: every package variable, Tunnel/Gateway/Processor field and the client writer/reader as accessed by the handler and the relay goroutine, with the mutexes held over all call paths), no_race, whole_packets_parse; pinned_fails shows the pinned tree's table failed in three places (D4, D5, D6; repaired). The table is the tie (translator); a -race build of the harness runs rounds of concurrent tunnels on both transports (data both ways, keep-alives, close / protocol error while the host is sending, abrupt disconnects) and turns race reports, concurrent-map/concurrent-write faults and client-side framing errors into replays.",
+   design="6/C09",
+   note="Proves the lock discipline, not the Go memory model. Trusted: the extraction (go/types based, lexical lock scopes, call-path intersection), the happens-before assumptions stated in Model/Access.lean (handler accesses before the `go` statement precede the relay; the legacy OUT handler finishes before the IN handler of the same tunnel starts), internally synchronised library types (go-cache, prometheus, net.Conn for one reader and one writer) which are listed in Generated.Access.whitelisted."),
 }
 
 def entry(pid, c):
